@@ -653,7 +653,7 @@ def run_pool(pid, cfgs, tier, seed, jobs, verbose=False):
     (a configuration that exceeds it is reported inconclusive, never as success)"""
     import multiprocessing as mp
     ctxm = mp.get_context('fork')
-    default_budget = 300 if tier == 'quick' else 3600
+    default_budget = 300 if tier == 'quick' else 1200
     pending = list(cfgs)
     running = []
     recs = []
